@@ -1039,6 +1039,11 @@ func rulePQInitial(c *Ctx, r *R) {
 					}
 				}
 			}
+			if ok && base == "initial" && sl.High != nil && !isConstInt(sl.High, 0) && (sl.Low == nil || isConstInt(sl.Low, 0)) && compactedPrefix(sl) {
+				// compaction in place: initial[:kept] with kept counting exactly the first occurrences written to the front
+				nApp++
+				continue
+			}
 			if !ok || sl.High == nil || !isConstInt(sl.High, 0) || base != "initial" {
 				allSliced = false
 				why = "the slice given to heap.New may be " + path(rt) + " (the raw, possibly duplicate-laden input)"
@@ -1052,6 +1057,23 @@ func rulePQInitial(c *Ctx, r *R) {
 	r.ok(good, "xheap.NewPriorityQueue|dedup-before-heap", fn.Pos(), "a queue built from an initial list must hold each distinct key once: "+why)
 	for _, n := range []string{"container/xheap.NewCmp$1", "container/xheap.NewPriorityQueueCmp$1"} {
 		f := c.fn(n)
+		if f == nil {
+			// the adapter comes from a shared constructor (lessFromCompare(compare)): the function value the outer function
+			// hands to New / NewPriorityQueue as `less`
+			if outer := c.fn(strings.TrimSuffix(n, "$1")); outer != nil {
+				instrs(outer, func(_ *ssa.BasicBlock, _ int, in ssa.Instruction) {
+					call, ok := in.(*ssa.Call)
+					if !ok || f != nil || len(call.Call.Args) == 0 {
+						return
+					}
+					if cal := staticCallee(&call.Call); cal != nil && rootFn(origin(cal)).Pkg == outer.Pkg && strings.HasPrefix(cal.Name(), "New") {
+						if lf, _ := funcAndReceiver(call.Call.Args[0]); lf != nil && lf.Blocks != nil && len(lf.Params) == 2 {
+							f = lf
+						}
+					}
+				})
+			}
+		}
 		if f == nil {
 			r.undecided(n+"|missing", token.NoPos, "anchor not found")
 			continue
@@ -1303,3 +1325,62 @@ var _ = late(func() {
 			}
 		}})
 })
+
+
+// compactedPrefix: sl is base[:K] where K is a loop counter that starts at 0 and is incremented by one exactly in blocks that
+// (1) run under the key-not-yet-seen outcome of a map lookup and (2) store an element into base[K]: the prefix holds the first
+// occurrences only.
+func compactedPrefix(sl *ssa.Slice) bool {
+	seen := map[ssa.Value]bool{}
+	incs := 0
+	var ok func(v ssa.Value) bool
+	ok = func(v ssa.Value) bool {
+		if seen[v] {
+			return true
+		}
+		seen[v] = true
+		switch x := v.(type) {
+		case *ssa.Const:
+			return isConstInt(x, 0)
+		case *ssa.Phi:
+			for _, e := range x.Edges {
+				if !ok(e) {
+					return false
+				}
+			}
+			return true
+		case *ssa.BinOp:
+			if x.Op != token.ADD || !isConstInt(x.Y, 1) {
+				return false
+			}
+			if _, isPhi := x.X.(*ssa.Phi); !isPhi || !ok(x.X) {
+				return false
+			}
+			notSeen := false
+			for _, g := range guardsOf(x.Block()) {
+				if vv, val := g.boolVal(); !val {
+					if e, isE := vv.(*ssa.Extract); isE && e.Index == 1 {
+						if _, isL := e.Tuple.(*ssa.Lookup); isL {
+							notSeen = true
+						}
+					}
+				}
+			}
+			stored := false
+			for _, in := range x.Block().Instrs {
+				if st, isS := in.(*ssa.Store); isS {
+					if ia, isIA := st.Addr.(*ssa.IndexAddr); isIA && ia.Index == x.X && path(ia.X) == path(sl.X) {
+						stored = true
+					}
+				}
+			}
+			if notSeen && stored {
+				incs++
+				return true
+			}
+			return false
+		}
+		return false
+	}
+	return ok(sl.High) && incs >= 1
+}
